@@ -18,8 +18,10 @@ structure Core (f' f : FileDesc) : Prop where
   maxCount : f'.maxCount = f.maxCount
   carousel : f'.carousel = f.carousel
   allowStop : f'.allowStop = f.allowStop
+  faults : f'.faults = f.faults
+  attempt : f'.info.attempt = f.info.attempt
 
-theorem Core.refl (f : FileDesc) : Core f f := ⟨rfl, rfl, rfl, rfl, rfl, rfl, rfl⟩
+theorem Core.refl (f : FileDesc) : Core f f := ⟨rfl, rfl, rfl, rfl, rfl, rfl, rfl, rfl, rfl⟩
 
 theorem Core.nPk {f' f : FileDesc} (h : Core f' f) : f'.nPk = f.nPk := by unfold FileDesc.nPk; rw [h.nSym]
 theorem Core.canStop {f' f : FileDesc} (h : Core f' f) : canStop f' = canStop f := by
@@ -36,13 +38,18 @@ structure ObjRel (s : State) (L : Held) (toi : Nat) (f : FileDesc) (m : LM) : Pr
   inFiles : toi ∈ s.files → m.removed = none ∧ (toi ∈ s.queue ∨ f.info.transferring = true)
   count : f.carousel = none → f.info.count = f.info.total ∧ f.info.total ≤ burstF f ∧
     ((toi ∈ s.files ∨ f.info.transferring = true) → f.info.total < burstF f)
-  notStopped : ∀ pc ∈ L, pc.2.key = toi → toi ∈ s.files → pc.2.enc.stopped = false
+  /-- a transfer of an object in the sender is not stopped - unless the attempt failed to start (faulty source) -/
+  notStopped : ∀ pc ∈ L, pc.2.key = toi → toi ∈ s.files →
+    pc.2.enc.stopped = false ∨ (f.info.attempt.isSome = true ∧ pc.2.enc.sent = 0)
   removed : ∀ wa st, m.removed = some (wa, st) → toi ∉ s.files ∧ (wa = false → f.info.transferring = false) ∧
     (f.info.transferring = true → wa = true ∧ st = canStop f ∧ ∀ pc ∈ L, pc.2.key = toi →
-      (st = false → pc.2.enc.stopped = false) ∧
+      (st = false → pc.2.enc.stopped = false ∨ (f.info.attempt.isSome = true ∧ pc.2.enc.sent = 0)) ∧
       (st = true → (pc.2.enc.stopped = false ∧ m.after = 0) ∨ pc.2.enc.stopped = true))
-  full : (m.removed = none ∨ ∃ wa, m.removed = some (wa, false)) →
+  /-- (for objects whose source never fails) -/
+  full : (m.removed = none ∨ ∃ wa, m.removed = some (wa, false)) → f.faults = [] →
     m.full = m.stops + (if f.info.transferring = true ∧ m.sent = f.nPk then 1 else 0)
+  faults : ∀ a, m.args = some a → a.faults = f.faults
+  attempt : f.info.transferring = true → f.info.attempt = f.faults[f.info.total]?
   carousel : f.carousel.isSome = true → toi ∈ s.files ∨ m.removed.isSome = true
   after0 : m.removed = none → m.after = 0
   transFiles : f.info.transferring = true → m.removed = none → toi ∈ s.files
@@ -69,14 +76,16 @@ theorem ObjRel.of_same {s s' : State} {L L' : Held} {toi : Nat} {f f' : FileDesc
     obtain ⟨h1, h2, h3⟩ := h.count hcar
     rw [hc.count, hc.total, hc.burstF, hc.transferring, hfiles]
     exact ⟨h1, h2, h3⟩
-  notStopped := fun pc hpc hk hf => h.notStopped pc (hL pc hpc hk) hk (hfiles.mp hf)
+  notStopped := fun pc hpc hk hf => by rw [hc.attempt]; exact h.notStopped pc (hL pc hpc hk) hk (hfiles.mp hf)
   removed := fun wa st hr => by
     obtain ⟨h1, h2, h3⟩ := h.removed wa st hr
-    rw [hc.transferring, hc.canStop]
+    rw [hc.transferring, hc.canStop, hc.attempt]
     refine ⟨fun hf => h1 (hfiles.mp hf), h2, fun ht => ?_⟩
     obtain ⟨h4, h5, h6⟩ := h3 ht
     exact ⟨h4, h5, fun pc hpc hk => h6 pc (hL pc hpc hk) hk⟩
-  full := fun hr => by rw [hc.transferring, hc.nPk]; exact h.full hr
+  full := fun hr hfl => by rw [hc.transferring, hc.nPk]; exact h.full hr (by rw [← hc.faults]; exact hfl)
+  faults := fun a ha => by rw [hc.faults]; exact h.faults a ha
+  attempt := fun ht => by rw [hc.attempt, hc.faults, hc.total]; exact h.attempt (by rw [← hc.transferring]; exact ht)
   carousel := fun hcar => by
     rw [hc.carousel] at hcar
     rcases h.carousel hcar with h1 | h1
@@ -176,7 +185,7 @@ theorem pubDesc_content_sub (s : State) : ∀ t ∈ (pubDesc s).content, t ∈ s
 
 theorem pubMark_core (fs : List Nat) (f : FileDesc) : Core (pubMark fs f) f := by
   unfold pubMark; split
-  · exact ⟨rfl, rfl, rfl, rfl, rfl, rfl, rfl⟩
+  · exact ⟨rfl, rfl, rfl, rfl, rfl, rfl, rfl, rfl, rfl⟩
   · exact Core.refl f
 
 theorem burst_eq {a : AddArgs} {f : FileDesc} (h : a.maxCount = f.maxCount) : burst a = burstF f := by
@@ -318,7 +327,8 @@ theorem LifeInv.about {s s' : State} {L L' : Held} {e : Ev} {t0 : Nat} (h : Life
 theorem nPk_pos (f : FileDesc) : 0 < f.nPk := by unfold FileDesc.nPk; split <;> omega
 
 theorem LifeInv.ofFileStartStep {s : State} {L : Held} {prio now t : Nat} (tk : Nat) (c : Cur)
-    (hck : c.key = t) (hc0 : c.enc.sent = 0) (hcs : c.enc.stopped = false)
+    (hck : c.key = t) (hc0 : c.enc.sent = 0)
+    (hcs : ∀ g, getF s.objs t = some g → c.enc.stopped = (g.faults[g.info.total]?).isSome)
     (hw : Wf s L) (h : LifeInv s L) (hfn : findNext s prio now s.queue = some t) :
     LifeInv (fileStartStep s t now tk) ((prio, c) :: L) := by
   obtain ⟨pre, post, hq, _, g, hg, hst⟩ := findNext_spec s prio now s.queue t hfn
@@ -373,13 +383,18 @@ theorem LifeInv.ofFileStartStep {s : State} {L : Held} {prio now t : Nat} (tk : 
         exact ⟨by rw [this]; exact h1, h2, fun _ => h3 (Or.inl htf)⟩
       notStopped := fun pc hpc hk _ => by
         rcases List.mem_cons.mp hpc with rfl | hpc
-        · exact hcs
+        · have hst := hcs g hg
+          cases hfa : (g.faults[g.info.total]?).isSome with
+          | false => left; rw [hfa] at hst; exact hst
+          | true => right; exact ⟨hfa, hc0⟩
         · exact absurd hk (hne pc hpc)
       removed := fun wa st hr => by
         have : (LM.run t s.log).removed = some (wa, st) := hr
         rw [hrem] at this; cases this
-      full := fun _ => by
-        have h1 := r.full (Or.inl hrem)
+      faults := fun a' ha' => r.faults a' ha'
+      attempt := fun _ => rfl
+      full := fun _ hfl => by
+        have h1 := r.full (Or.inl hrem) hfl
         rw [hgt] at h1
         simp only [Bool.false_eq_true, false_and, if_false, Nat.add_zero] at h1
         show (LM.run t s.log).full = (LM.run t s.log).stops + (if _ ∧ 0 = (transferInit g now tk).nPk then 1 else 0)
@@ -397,7 +412,8 @@ theorem LifeInv.ofFileStartStep {s : State} {L : Held} {prio now t : Nat} (tk : 
     exact (r.count hcar).2.2 (Or.inl htf)
 
 theorem LifeInv.ofFileStart' {s : State} {L : Held} {prio now t : Nat} (tk : Nat) (c : Cur)
-    (hck : c.key = t) (hc0 : c.enc.sent = 0) (hcs : c.enc.stopped = false)
+    (hck : c.key = t) (hc0 : c.enc.sent = 0)
+    (hcs : ∀ g, getF s.objs t = some g → c.enc.stopped = (g.faults[g.info.total]?).isSome)
     (hw : Wf s L) (h : LifeInv s L) (hfn : findNext s prio now s.queue = some t) :
     LifeInv (autoPublish (fileStartStep s t now tk) now) ((prio, c) :: L) := by
   have h1 := LifeInv.ofFileStartStep tk c hck hc0 hcs hw h hfn
@@ -406,11 +422,34 @@ theorem LifeInv.ofFileStart' {s : State} {L : Held} {prio now t : Nat} (tk : Nat
   · exact publishTry_elim (P := fun x => LifeInv x ((prio, c) :: L)) _ now (h1.ofPublish now) h1
   · exact h1
 
+/-- the descriptor of the object that has just been started -/
+theorem getF_fileStart (s : State) (t now tk : Nat) (g : FileDesc) (hg : getF s.objs t = some g) :
+    ∃ f1, getF (autoPublish (fileStartStep s t now tk) now).objs t = some f1 ∧
+      f1.info = (transferInit g now tk).info := by
+  have h0 : getF (fileStartStep s t now tk).objs t = some (transferInit g now tk) := by
+    show getF (updF s.objs t (fun f => transferInit f now tk)) t = _
+    rw [getF_updF s.objs t t (fun f => transferInit f now tk) (fun _ => rfl), if_pos rfl, hg]; rfl
+  unfold autoPublish
+  split
+  · rcases publishTry_cases (fileStartStep s t now tk) now with e | e
+    · rw [e, publish_getF_objs, h0]
+      exact ⟨_, rfl, pubMark_info _ _⟩
+    · rw [e]; exact ⟨_, h0, rfl⟩
+  · exact ⟨_, h0, rfl⟩
+
+/-- a fresh encoder is "stopped" exactly when the attempt is faulty -/
+theorem startCur_stopped (s : State) (t now tk : Nat) (g : FileDesc) (hg : getF s.objs t = some g) :
+    (startCur (autoPublish (fileStartStep s t now tk) now) t).enc.stopped = (g.faults[g.info.total]?).isSome := by
+  obtain ⟨f1, hf1, hinfo⟩ := getF_fileStart s t now tk g hg
+  unfold startCur
+  simp only [hf1, hinfo]
+  rfl
+
 theorem LifeInv.ofFileStart {s : State} {L : Held} {prio now t : Nat} (tk : Nat)
     (hw : Wf s L) (h : LifeInv s L) (hfn : findNext s prio now s.queue = some t) :
     LifeInv (autoPublish (fileStartStep s t now tk) now)
       ((prio, startCur (autoPublish (fileStartStep s t now tk) now) t) :: L) :=
-  LifeInv.ofFileStart' tk _ rfl rfl rfl hw h hfn
+  LifeInv.ofFileStart' tk _ rfl rfl (fun g hg => startCur_stopped s t now tk g hg) hw h hfn
 
 theorem encRead_eq (n : Nat) (e : Enc) (force : Bool) :
     encRead n e force =
@@ -466,7 +505,7 @@ theorem encRead_none {n : Nat} {e e' : Enc} {force : Bool} (h : encRead n e forc
 theorem tickInfo_core (f : FileDesc) : Core (tickInfo f) f := by
   unfold tickInfo FileDesc.updInfo
   simp only []
-  split <;> exact ⟨rfl, rfl, rfl, rfl, rfl, rfl, rfl⟩
+  split <;> exact ⟨rfl, rfl, rfl, rfl, rfl, rfl, rfl, rfl, rfl⟩
 
 theorem LifeInv.ofPkt {s : State} {L : Held} {prio : Nat} {c : Cur} {f : FileDesc} {now idx : Nat} {b : Bool} {e : Enc}
     (hw : Wf s ((prio, c) :: L)) (h : LifeInv s ((prio, c) :: L)) (hf : getF s.objs c.key = some f)
@@ -537,7 +576,8 @@ theorem LifeInv.ofPkt {s : State} {L : Held} {prio : Nat} {c : Cur} {f : FileDes
         exact r.count hcar
       notStopped := fun pc hpc hk hin => by
         rcases List.mem_cons.mp hpc with rfl | hpc
-        · show e.stopped = false
+        · left
+          show e.stopped = false
           rw [e5]; exact hforce_in hin
         · exact absurd hk (hne pc hpc)
       removed := fun wa st hr => by
@@ -549,11 +589,14 @@ theorem LifeInv.ofPkt {s : State} {L : Held} {prio : Nat} {c : Cur} {f : FileDes
         rcases List.mem_cons.mp hpc with rfl | hpc
         · have hst : e.stopped = st := by rw [e5, hforce_out h1, h5]
           constructor
-          · intro h0; show e.stopped = false; rw [hst, h0]
+          · intro h0; left; show e.stopped = false; rw [hst, h0]
           · intro h0; right; show e.stopped = true; rw [hst, h0]
         · exact absurd hk (hne pc hpc)
-      full := fun hr => by
-        have h1 := r.full hr
+      faults := fun a' ha' => by rw [hc.faults]; exact r.faults a' ha'
+      attempt := fun ht => by
+        rw [hc.attempt, hc.faults, hc.total]; exact r.attempt (by rw [← hc.transferring]; exact ht)
+      full := fun hr hfl => by
+        have h1 := r.full hr (by rw [← hc.faults]; exact hfl)
         rw [hc.transferring, hc.nPk, htr]
         rw [htr, hsent] at h1
         simp only [true_and] at h1 ⊢
@@ -613,20 +656,37 @@ theorem LifeInv.ofDone' {s s' : State} {L : Held} {prio : Nat} {c : Cur} {f : Fi
     show LM.step c.key (LM.run c.key s.log) (Ev.stop now c.key) = _
     simp [LM.step]
   -- an unforced transfer ends with all packets out
-  have hfullsent : ((LM.run c.key s.log).removed = none ∨ ∃ wa, (LM.run c.key s.log).removed = some (wa, false)) →
-      c.enc.sent = f.nPk := by
+  -- not stopped, or a faulty attempt
+  have hnsf : ((LM.run c.key s.log).removed = none ∨ ∃ wa, (LM.run c.key s.log).removed = some (wa, false)) →
+      c.enc.stopped = false ∨ (f.info.attempt.isSome = true ∧ c.enc.sent = 0) := by
     intro hr
-    have hns : c.enc.stopped = false := by
-      rcases hr with hr | ⟨wa, hr⟩
-      · exact r.notStopped (prio, c) List.mem_cons_self rfl (r.transFiles htr hr)
-      · obtain ⟨_, _, h3⟩ := r.removed wa false hr
-        obtain ⟨_, _, h6⟩ := h3 htr
-        exact (h6 (prio, c) List.mem_cons_self rfl).1 rfl
+    rcases hr with hr | ⟨wa, hr⟩
+    · exact r.notStopped (prio, c) List.mem_cons_self rfl (r.transFiles htr hr)
+    · obtain ⟨_, _, h3⟩ := r.removed wa false hr
+      obtain ⟨_, _, h6⟩ := h3 htr
+      exact (h6 (prio, c) List.mem_cons_self rfl).1 rfl
+  have hfullns : c.enc.stopped = false → c.enc.sent = f.nPk := by
+    intro hns
     rcases e3 with e3 | e3
     · rw [hns] at e3; cases e3
     · have h1 : f.nPk ≤ c.enc.sent := e3
       have h2 : c.enc.sent ≤ f.nPk := hsle
       omega
+  have hfullsent : ((LM.run c.key s.log).removed = none ∨ ∃ wa, (LM.run c.key s.log).removed = some (wa, false)) →
+      f.faults = [] → c.enc.sent = f.nPk := by
+    intro hr hfl
+    rcases hnsf hr with hns | ⟨hat, _⟩
+    · exact hfullns hns
+    · rw [r.attempt htr, hfl] at hat; cases hat
+  -- the stop of an unforced transfer is legal: all packets out, or a faulty attempt without packet
+  have hend : ((LM.run c.key s.log).removed = none ∨ ∃ wa, (LM.run c.key s.log).removed = some (wa, false)) →
+      c.enc.sent = f.nPk ∨ (LM.run c.key s.log).removed = some (true, true) ∨
+        (c.enc.sent = 0 ∧ (a.faults[(LM.run c.key s.log).stops]?).isSome = true) := by
+    intro hr
+    rcases hnsf hr with hns | ⟨hat, hs0⟩
+    · exact Or.inl (hfullns hns)
+    · refine Or.inr (Or.inr ⟨hs0, ?_⟩)
+      rw [r.faults a ha1, r.stops, ← r.attempt htr]; exact hat
   refine h.about (e := Ev.stop now c.key) (t0 := c.key) rfl hlog
     (fun toi hn => by rw [hget, if_neg hn])
     (fun toi hn => ⟨hf1 toi, hf2 toi hn⟩) (fun toi _ hq => hq1 toi hq)
@@ -662,9 +722,11 @@ theorem LifeInv.ofDone' {s s' : State} {L : Held} {prio : Nat} {c : Cur} {f : Fi
       removed := fun wa st hr => by
         obtain ⟨h1, h2, _⟩ := r.removed wa st hr
         exact ⟨fun hin => h1 (hf1 _ hin), fun _ => rfl, fun ht => by cases ht⟩
-      full := fun hr => by
-        have h1 := r.full hr
-        rw [htr, hsent, hfullsent hr] at h1
+      faults := fun a' ha' => r.faults a' ha'
+      attempt := fun ht => by cases ht
+      full := fun hr hfl => by
+        have h1 := r.full hr hfl
+        rw [htr, hsent, hfullsent hr hfl] at h1
         simp only [and_self, if_true] at h1
         show (LM.run c.key s.log).full = (LM.run c.key s.log).stops + 1 + (if false = true ∧ _ then 1 else 0)
         rw [h1]; simp
@@ -688,15 +750,15 @@ theorem LifeInv.ofDone' {s s' : State} {L : Held} {prio : Nat} {c : Cur} {f : Fi
     refine ⟨by rw [r.active]; exact htr, a, ha1, ?_⟩
     rw [npk_eq ha2, hsent]
     cases hr : (LM.run c.key s.log).removed with
-    | none => exact Or.inl (hfullsent (Or.inl hr))
+    | none => rw [hr] at hend; exact hend (Or.inl rfl)
     | some p =>
       obtain ⟨wa, st⟩ := p
       obtain ⟨_, _, h3⟩ := r.removed wa st hr
       obtain ⟨h4, _, _⟩ := h3 htr
       subst h4
       cases st with
-      | false => exact Or.inl (hfullsent (Or.inr ⟨true, hr⟩))
-      | true => exact Or.inr rfl
+      | false => rw [hr] at hend; exact hend (Or.inr ⟨true, rfl⟩)
+      | true => exact Or.inr (Or.inl rfl)
 
 theorem LifeInv.ofDone {s : State} {L : Held} {prio : Nat} {c : Cur} {f : FileDesc} {now : Nat} {e : Enc} {force : Bool}
     (hw : Wf s ((prio, c) :: L)) (h : LifeInv s ((prio, c) :: L)) (hf : getF s.objs c.key = some f)
@@ -740,7 +802,7 @@ theorem lrun_failed_remove (t toi : Nat) (l : List Ev) :
   show LM.step t _ _ = _; simp [LM.step]
 
 theorem reset_core (f : FileDesc) (ts : Option Nat) : Core (resetLastTransfer f ts) f :=
-  ⟨rfl, rfl, rfl, rfl, rfl, rfl, rfl⟩
+  ⟨rfl, rfl, rfl, rfl, rfl, rfl, rfl, rfl, rfl⟩
 
 theorem LifeInv.ofAdd {s : State} {L : Held} (a : AddArgs) (hw : Wf s L) (h : LifeInv s L) :
     LifeInv (addObject s a).1 L := by
@@ -799,7 +861,9 @@ theorem LifeInv.ofAdd {s : State} {L : Held} (a : AddArgs) (hw : Wf s L) (h : Li
             unfold burstF; split <;> omega⟩
           notStopped := fun pc hpc hk => absurd hk (hnoheld pc hpc)
           removed := fun wa st hr => by cases hr
-          full := fun _ => rfl
+          faults := fun a' ha' => by cases ha'; rfl
+          attempt := fun ht => by cases ht
+          full := fun _ _ => rfl
           carousel := fun _ => Or.inl (List.mem_append_right _ (by simp))
           after0 := fun _ => rfl
           transFiles := fun ht => by cases ht }
@@ -862,8 +926,13 @@ theorem LifeInv.ofRemove {s : State} {L : Held} (t : Nat) (h : LifeInv s L) :
         refine ⟨hnin, fun h0 => by rw [← r.active, h1, h0], fun ht => ?_⟩
         refine ⟨by rw [← h1, r.active, ht], by rw [← h2, hstop], fun pc hpc hk => ?_⟩
         have hns := r.notStopped pc hpc hk hin
-        exact ⟨fun _ => hns, fun _ => Or.inl ⟨hns, r.after0 hrem⟩⟩
-      full := fun _ => r.full (Or.inl hrem)
+        refine ⟨fun _ => hns, fun _ => ?_⟩
+        cases hst : pc.2.enc.stopped with
+        | false => exact Or.inl ⟨rfl, r.after0 hrem⟩
+        | true => exact Or.inr rfl
+      faults := r.faults
+      attempt := r.attempt
+      full := fun _ hfl => r.full (Or.inl hrem) hfl
       carousel := fun _ => Or.inr rfl
       after0 := fun hr => by cases hr
       transFiles := fun _ hr => by cases hr }
@@ -881,7 +950,7 @@ theorem LifeInv.closed : Closed Wf LifeInv where
   fdtAdvance := fun _ _ now _ h _ _ => h.ofFdtAdvance now
   fileStart := fun _ _ _ _ tk _ hw h _ hfn => h.ofFileStart tk hw hfn
   pkt := fun _ _ _ _ _ _ _ _ _ hw h _ hf _ _ he => h.ofPkt hw hf he
-  done := fun _ _ _ _ _ _ _ hw h _ hf _ _ he => h.ofDone hw hf he
+  done := fun _ _ _ _ _ _ _ hw h _ hf he => h.ofDone hw hf he
   fdtPkt := fun _ _ c f now idx _ e _ h _ _ _ _ _ => h.ofFdtPkt c e f.fdtId now idx
   fdtDone := fun _ _ c _ now _ _ h _ _ _ _ _ => h.ofFdtDone c.key now
 
